@@ -81,6 +81,38 @@ def apply(F, t):
     raise ValueError(name)
 
 
+def apply_cli(fc, t):
+    """the same transformation through `cnfgen dimacs <file> -T ...`; None when the command line cannot express it"""
+    from vlib import cli, catalog
+    name = t['name']
+    if fc['kind'] != 'hand':
+        return None
+    with catalog.Ctx() as ctx:
+        if name in BLOCK:
+            toks = [name, t['k']]
+        elif name in LINEAR:
+            if t['K'] < 1:
+                return None             # the parser takes positive thresholds only
+            toks = [name, t['k'], t['K']]
+        elif name in ('ite', 'flip'):
+            toks = [name]
+        elif name == 'lift':
+            toks = [name, t['k']]
+        else:
+            b = t['B']
+            if b['L'] < 1 or b['R'] < 1:
+                return None
+            p2 = ctx.path('matrix')
+            catalog.write_matrix(p2, b['L'], b['R'], b['edges'])
+            toks = [name, 'matrix', p2]
+        path = ctx.path('cnf')
+        with open(path, 'w') as fh:
+            fh.write("p cnf {} {}\n".format(fc['n'], len(fc['clauses'])))
+            for c in fc['clauses']:
+                fh.write(" ".join(map(str, list(c) + [0])) + "\n")
+        return cli.build('cnfgen', ['-q', 'dimacs', path, '-T'] + [str(x) for x in toks])
+
+
 def expected_vars(n, t):
     name = t['name']
     if name in BLOCK or name in LINEAR:
@@ -133,7 +165,10 @@ def run_case(case):
     F = base_formula(fc)
     n = F.number_of_variables()
     before = [list(c) for c in F]
-    G = apply(F, t)
+    G = apply_cli(fc, t) if case.get('via') == 'cli' else None
+    through_tool = G is not None
+    if G is None:
+        G = apply(F, t)
     if [list(c) for c in F] != before or F.number_of_variables() != n:
         raise Violation("the transformation {} modified its input".format(t))
     name = t['name']
@@ -187,6 +222,10 @@ def run_case(case):
             t, fc, N.row(a) if isinstance(N, tt.Batch) else tt.row_assignment(N, a), 'satisfies' if (got >> a) & 1 else 'falsifies',
             'satisfies' if (want >> a) & 1 else 'does not satisfy (or selectors are not exactly-one in)'))
     labels = [name, fc['kind']]
+    if through_tool:
+        labels.append('through-cnfgen')
+        if not G.number_of_clauses():
+            labels.append('through-cnfgen-no-clauses')
     if isinstance(N, tt.Batch):
         labels.append('arity>=9' if t.get('k', 0) >= 9 or name.endswith('comp') else 'sampled')
     if any(len(c) == 0 for c in before):
@@ -326,7 +365,7 @@ def strat_case(draw):
                 cnt[u] = cnt.get(u, 0) + 1
         g['edges'] = keep
         t['B'] = g
-    return {'F': F, 'T': t}
+    return {'F': F, 'T': t, 'via': draw(st.sampled_from(['lib', 'lib', 'cli']))}
 
 
 def enum_cases(tier):
@@ -349,9 +388,11 @@ def enum_cases(tier):
             for K in range(0, k + 2):
                 ts.append({'name': name, 'k': k, 'K': K})
     ts += [{'name': 'ite'}, {'name': 'flip'}, {'name': 'lift', 'k': 1}, {'name': 'lift', 'k': 2}, {'name': 'lift', 'k': 3}]
-    for F in forms:
-        for t in ts:
+    for fi, F in enumerate(forms):
+        for ti, t in enumerate(ts):
             yield {'F': F, 'T': t}
+            if (fi + ti) % 4 == 0 or not F['clauses']:
+                yield {'F': F, 'T': t, 'via': 'cli'}       # the same through the command line
         n = F['n']
         for g in gg.all_bipartite_graphs(n, 2, Lmin=n):
             for name in ('xorcomp', 'majcomp'):
@@ -362,10 +403,10 @@ def enum_cases(tier):
 
 SUBCHECKS = [
     SubCheck('compose', run_case, strategy=strat_case, enumerate_cases=enum_cases, quick=1200, thorough=60000,
-             rule="CNFs with 1..4 variables, 0..4 clauses of width 0..3 (0..6 for arity<=2) (empty clause, unused variables, repeated/opposite literals) and small php/op/Tseitin instances x every exported substitution (k in 1..4, thresholds 0..k+1), if-then-else, lifting k<=3, flip, xor/maj compression with arbitrary bipartite graphs; complete slice: all formulas on <=2 variables with <=2 clauses x all transformations; oracle: tt(G) == F evaluated on the gadget-induced assignment for every assignment (lifting: and exactly one selector), variable count as documented; non-trivial: a non-empty clause and a non-constant gadget",
+             rule="CNFs with 1..4 variables, 0..4 clauses of width 0..3 (0..6 for arity<=2) (empty clause, unused variables, repeated/opposite literals) and small php/op/Tseitin instances x every exported substitution (k in 1..4, thresholds 0..k+1; a third of the cases through `cnfgen dimacs <file> -T ...` on a harness-written file, formulas without clauses included), if-then-else, lifting k<=3, flip, xor/maj compression with arbitrary bipartite graphs; complete slice: all formulas on <=2 variables with <=2 clauses x all transformations; oracle: tt(G) == F evaluated on the gadget-induced assignment for every assignment (lifting: and exactly one selector), variable count as documented; non-trivial: a non-empty clause and a non-constant gadget",
              required_labels=BLOCK + LINEAR + ['ite', 'lift', 'flip', 'xorcomp', 'majcomp', 'empty-clause',
                                               'unused-variable', 'opposite-literals', 'threshold-at-boundary',
-                                              'variable-without-neighbours', 'php', 'op']),
+                                              'variable-without-neighbours', 'php', 'op', 'through-cnfgen', 'through-cnfgen-no-clauses']),
     SubCheck('wide', run_case, enumerate_cases=enum_wide,
              rule="gadgets of arity 9..14 (xor), 9..33 (or, all-equal, not-all-equal, exactly-one), 7..10 (majority), 9..16 (threshold substitutions, constants near both ends) and xor/maj compression with left degree 9..11, on formulas with 1..3 variables; oracle: as in 'compose', evaluated on 300 sampled assignments whose per-block counts sit around the gadget's switching points (bit-parallel on the sample); non-trivial: as in 'compose'",
              required_labels=['arity>=9', 'xor', 'xorcomp', 'maj']),
